@@ -379,14 +379,17 @@ def values_of(m, syms):
     return {qn: [st.model_value(m, v) for v in s.elems()] for qn, s in syms.items()}
 
 
-def set_masks(pit, values):
-    """write concrete mask values (fractions / strings) into the real parameters"""
+def set_masks(pit, values, how='nograd'):
+    """write concrete mask values (fractions / strings) into the real parameters: in place under no_grad (bumps the version counter) or through .data"""
     byname = {qn: (masker, pname, p) for qn, masker, pname, p in mask_params(pit, include_frozen_time=True)}
     with torch.no_grad():
         for qn, vals in values.items():
             masker, pname, p = byname[qn]
             t = torch.tensor([float(Fraction(v)) for v in vals], dtype=torch.float32).reshape(p.shape)
-            p.copy_(t)
+            if how == 'data':
+                p.data.copy_(t)
+            else:
+                p.copy_(t)
 
 
 def pit_layers(pit):
